@@ -1,8 +1,10 @@
 """Registry of translators: name -> (function(repo, pins) -> (coq_text, info), output file in coq/Gen)."""
 import gen_enums
 import gen_merge
+import gen_cmpchain
 
 GENERATORS = {
     'enums': (gen_enums.gen, 'EnumTables.v'),
     'merge': (gen_merge.gen, 'Merge.v'),
+    'cmpchain': (gen_cmpchain.gen, 'CmpChain.v'),
 }
